@@ -79,9 +79,9 @@ kani_unit("crypto_rp64", "winter-crypto", "crypto/src/hash/rescue/rp64_256/mod.r
       bounded="6 symbolic residues", timeout=900),
     H("rp64_merge_is_hash_of_concatenation_contract", ["C11"], ["Rp64_256::merge", "Rp64_256::hash_elements"],
       "forall digests a, b: merge([a, b]) == hash_elements(a || b)", timeout=900),
-    H("rp64_merge_with_int_contract", ["C11"], ["Rp64_256::merge_with_int"],
+    H("rp64_merge_with_int_contract", ["C11", "C19", "C04", "C03"], ["Rp64_256::merge_with_int"],
       "forall seed, v: u64: merge_with_int(seed, v) == hash_elements(seed || [v]) if v < M else hash_elements(seed || [v mod M, v div M]); the absorbed encoding is injective in v", timeout=1200),
-    H("rp64_canary_must_fail", ["C11"], [], "false claim: all 3-byte strings hash equally", canary=True),
+    H("rp64_canary_must_fail", ["C11", "C19", "C04", "C03"], [], "false claim: all 3-byte strings hash equally", canary=True),
 ])
 for u in UNITS:
     if u["unit"] == "crypto_rp64":
@@ -102,9 +102,9 @@ kani_unit("crypto_rp62", "winter-crypto", "crypto/src/hash/rescue/rp62_248/mod.r
       "hashing 3 quadratic / 2 cubic extension elements == the documented sponge over the flattened residues", bounded="6 symbolic residues", timeout=900),
     H("rp62_merge_is_hash_of_concatenation_contract", ["C11"], ["Rp62_248::merge", "Rp62_248::hash_elements"],
       "forall digests a, b: merge([a, b]) == hash_elements(a || b)", timeout=900),
-    H("rp62_merge_with_int_contract", ["C11"], ["Rp62_248::merge_with_int"],
+    H("rp62_merge_with_int_contract", ["C11", "C19", "C04", "C03"], ["Rp62_248::merge_with_int"],
       "forall seed, v: u64: merge_with_int(seed, v) == hash_elements(seed || [v]) if v < M else hash_elements(seed || [v mod M, v div M]); the absorbed encoding is injective in v", timeout=1200),
-    H("rp62_canary_must_fail", ["C11"], [], "false claim: all 3-byte strings hash equally", canary=True),
+    H("rp62_canary_must_fail", ["C11", "C19", "C04", "C03"], [], "false claim: all 3-byte strings hash equally", canary=True),
 ])
 for u_ in UNITS:
     if u_["unit"] == "crypto_rp62":
@@ -123,7 +123,11 @@ kani_unit("crypto_rpjive", "winter-crypto", "crypto/src/hash/rescue/rp64_256_jiv
 ] + [
     H("rpjive_hash_elements_extension_typing_bounded", ["C11"], ["RpJive64_256::hash_elements"],
       "hashing 3 quadratic / 2 cubic extension elements == the documented sponge over the flattened residues", bounded="6 symbolic residues", timeout=900),
-    H("rpjive_canary_must_fail", ["C11"], [], "false claim: all 3-byte strings hash equally", canary=True),
+    H("rpjive_merge_contract", ["C11"], ["RpJive64_256::merge", "RpJive64_256::apply_jive_summation"],
+      "forall digests a, b: merge([a, b]) == the Jive compression (input halves + permuted halves) of the block a || b", timeout=900),
+    H("rpjive_merge_with_int_contract", ["C11", "C19", "C04", "C03"], ["RpJive64_256::merge_with_int"],
+      "forall seed, v: u64: merge_with_int(seed, v) == Jive compression of seed || [v, 0, 0, 5] if v < M else of seed || [v mod M, v div M, 0, 6]; the absorbed block is injective in v (a nonce and nonce + M are absorbed differently)", timeout=1200),
+    H("rpjive_canary_must_fail", ["C11", "C19", "C04", "C03"], [], "false claim: all 3-byte strings hash equally", canary=True),
 ])
 for u_ in UNITS:
     if u_["unit"] == "crypto_rpjive":
